@@ -1171,10 +1171,13 @@ def name_to_class_map(name):
         "h": Hadamard,
         "s": Phase,
         "p": Phase,
+        "sdg": PhaseDagger,
+        "id": Identity,
         "cz": CZ,
         "classical x": ClassicalCNOT,
         "classical z": ClassicalCZ,
         "classical reset x": MeasurementCNOTandReset,
+        "measure z": MeasurementZ,
     }
     if name in mapping:
         return mapping[name]
@@ -1196,10 +1199,13 @@ def class_to_name_mapping(class_op):
         SigmaZ: "z",
         Hadamard: "h",
         Phase: "s",
+        PhaseDagger: "sdg",
+        Identity: "id",
         CZ: "cz",
         ClassicalCNOT: "classical x",
         ClassicalCZ: "classical z",
-        MeasurementCNOTandReset: "measurement-controlled x and reset",
+        MeasurementCNOTandReset: "classical reset x",
+        MeasurementZ: "measure z",
     }
     if class_op in mapping:
         return mapping[class_op]
